@@ -491,7 +491,7 @@ def check(ax, case, rec):
     rec.label("out=" + case["out"])
 
 
-FAMILIES = [Family("math", AXIS, check, strategy=strategy, n={"quick": 40, "thorough": 1500}, chunk=250)]
+FAMILIES = [Family("math", AXIS, check, strategy=strategy, n={"quick": 40, "thorough": 6000}, chunk=250)]
 
 LEVEL_TEXT = (
     "Every public routine and mode tuple enumerated; Hypothesis draws dims, batch shapes with broadcast axes, memory "
